@@ -40,3 +40,40 @@ Proof.
   intros T [|] held fb; unfold vo_value_or_common, vo_value_or, vo_cond_return; rewrite cond_type_same;
     rewrite ?vo_conv_same; cbn [rbind]; rewrite ?vo_conv_same; cbn [rbind]; reflexivity.
 Qed.
+
+(* ---- where the common-type rewrite (seed C07-i1) is invisible: everywhere but on a floating fallback type whose
+   significand is too short for the held integer *)
+
+Lemma round_small : forall p z, Z.abs z < 2 ^ p -> round_to p z = z.
+Proof. intros p z H. unfold round_to. destruct (Z.abs z <? 2 ^ p) eqn:E; [reflexivity|]. apply Z.ltb_ge in E. lia. Qed.
+
+(* integer fallback types: the round trip through the common type is lossless for every held value of T *)
+Theorem vo_common_integer_invisible : forall T U held fb,
+  vo_is_fp T = false -> vo_is_fp U = false -> ilo T <= held <= ihi T ->
+  vo_value_or_common T U true held fb = Ok held.
+Proof.
+  intros T U held fb HT HU Hr.
+  destruct T; try discriminate HT; destruct U; try discriminate HU;
+    cbv [vo_value_or_common vo_cond_return cond_type common has sty_eqb sty_id Nat.eqb promote orb
+         vo_conv vo_conv_raw vo_is_fp ilo ihi iwrap rbind] in *;
+    try reflexivity; f_equal; try lia;
+    match goal with |- (if ?e =? 0 then 0 else 1) = held =>
+      destruct (e =? 0) eqn:E; [apply Z.eqb_eq in E|apply Z.eqb_neq in E]; lia end.
+Qed.
+
+Theorem vo_common_small_invisible : forall T U held fb,
+  vo_is_fp T = false -> vo_is_fp U = true -> ilo T <= held <= ihi T -> Z.abs (2 * held) < 2 ^ mant U ->
+  vo_value_or_common T U true held fb = Ok held.
+Proof.
+  intros T U held fb HT HU Hr Hs.
+  assert (Hq : Z.quot (2 * held) 2 = held) by (rewrite Z.mul_comm; apply Z.quot_mul; lia).
+  destruct T; try discriminate HT; destruct U; try discriminate HU;
+    cbv [vo_value_or_common vo_cond_return cond_type common has sty_eqb sty_id Nat.eqb promote orb
+         vo_conv vo_conv_raw vo_is_fp rbind] in *;
+    rewrite (round_small _ _ Hs); cbv [rbind]; rewrite ?Hq;
+    cbv [ilo ihi] in *;
+    try (destruct (2 * held =? 0) eqn:E; [apply Z.eqb_eq in E|apply Z.eqb_neq in E]; f_equal; lia);
+    match goal with |- context [(?a <=? held) && (held <=? ?b)] =>
+      replace ((a <=? held) && (held <=? b)) with true by (symmetry; apply andb_true_iff; split; apply Z.leb_le; lia) end;
+    reflexivity.
+Qed.
